@@ -380,7 +380,10 @@ func TestC19Mutations(t *testing.T) {
 		for i := 0; i < len(valid); i++ {
 			emit(append([]byte{}, valid[:i]...)) // truncation
 		}
-		for i := 0; i < len(valid); i += stride {
+		for i := 0; i < len(valid); i++ {
+			if stride > 1 && i >= 64 && len(valid) > 256 && i%stride != 0 {
+				continue // quick tier: headers and small files completely, long bodies every 3rd position
+			}
 			emit(append(append([]byte{}, valid[:i]...), valid[i+1:]...)) // deletion
 			for _, sub := range []func(byte) byte{
 				func(b byte) byte { return b ^ 0x01 }, func(b byte) byte { return b ^ 0x80 },
